@@ -87,7 +87,10 @@ type trCtx struct {
 	pureDepth int // >0: translating a join as a pure term
 	extraParams []string // explicit iteration orders of the maps ranged over, explicit fuels
 	extraTypes  []string
+	opaqueParams map[types.Object]bool
 	markingCall bool
+	inLambda    int
+	externals   []string // documentation of the ext parameters
 	norder    int
 	resultTypes []types.Type // result types of the function (of the returned function literal for a curried method)
 	nresults  int // number of results of the function (of the returned function literal for a curried method)
@@ -367,6 +370,9 @@ func (c *trCtx) ident(x *ast.Ident) string {
 		if n, ok := c.names[o]; ok {
 			return n
 		}
+		if c.opaqueParams[o] {
+			trFail(x.Pos(), "parameter %s (type %s, not translatable) is used outside the calls of untranslated functions", x.Name, o.Type())
+		}
 		trFail(x.Pos(), "variable %s is used before the translator saw its declaration", x.Name)
 	case *types.Func:
 		return c.funcValue(o, x.Pos())
@@ -382,6 +388,32 @@ func (c *trCtx) ident(x *ast.Ident) string {
 	}
 	trFail(x.Pos(), "identifier %s (%T) is outside the subset", x.Name, obj)
 	return ""
+}
+
+// externalCall: a call of a function of /repo that is not translated (the registry, the syntax layer), outside every loop: its
+// RESULT becomes an extra parameter `ext<N>` of the translated function (the call is executed at most once; the translated state
+// holds no pointer the callee could write through: pointers are values there). The arguments are not translated.
+func (c *trCtx) externalCall(fobj *types.Func, x *ast.CallExpr) (string, bool) {
+	full := fobj.FullName()
+	if fobj.Pkg() == nil || !strings.HasPrefix(fobj.Pkg().Path(), trKnutPath) {
+		return "", false
+	}
+	if _, ok := trPinned[fobj.Origin().FullName()]; ok {
+		return "", false
+	}
+	if c.t.funcs[fobj.Origin()] != nil {
+		return "", false
+	}
+	if c.loop != nil || c.inLambda > 0 {
+		trFail(x.Pos(), "call of %s, which is not translated, inside a loop is outside the subset (outside loops its result would be a parameter)", full)
+	}
+	ty := c.leanType(c.typeOf(x), x.Pos())
+	c.norder++
+	n := "ext" + itoa(c.norder)
+	c.extraParams = append(c.extraParams, "("+n+" : "+ty+")")
+	c.extraTypes = append(c.extraTypes, ty)
+	c.externals = append(c.externals, n+" = "+full+" ("+c.t.l.relPos(x.Pos())+")")
+	return n, true
 }
 
 func (c *trCtx) passExtras(tf *trFunc) []string {
@@ -671,6 +703,11 @@ func (c *trCtx) call(x *ast.CallExpr) string {
 			return c.builtin(b.Name(), x)
 		}
 	}
+	if fo := c.calledFunc(x); fo != nil {
+		if r, ok := c.externalCall(fo, x); ok {
+			return r
+		}
+	}
 	var fobj *types.Func
 	var recv ast.Expr
 	switch f := trUnparen(x.Fun).(type) {
@@ -692,6 +729,9 @@ func (c *trCtx) call(x *ast.CallExpr) string {
 	}
 	if fobj == nil {
 		trFail(x.Pos(), "call of %s: not a function of the prelude or of a translated package", trSrc(x.Fun))
+	}
+	if r, ok := c.externalCall(fobj, x); ok {
+		return r
 	}
 	if x.Ellipsis != token.NoPos {
 		trFail(x.Pos(), "call with … is outside the subset")
